@@ -149,11 +149,16 @@ func dnsRewritesVia(entry string, texts []string, objs []*rules.NetworkRule) (al
 			res, _ = urlfilter.NewDNSEngine(st).MatchRequest(&urlfilter.DNSRequest{Hostname: rwHost})
 		}
 		all = res.DNSRewritesAll()
+		allTexts := textsOf(all)
 		got = res.DNSRewrites()
 		// asking twice must give the same answer (the first call must not damage the result)
 		again := res.DNSRewrites()
 		if !eqStrs(textsOf(got), textsOf(again)) {
 			panic("DNSRewrites() not idempotent")
+		}
+		// ... nor the list the result hands out
+		if allAgain := res.DNSRewritesAll(); !eqStrs(allTexts, textsOf(allAgain)) || !eqStrs(allTexts, textsOf(all)) {
+			panic("DNSRewritesAll() differs after DNSRewrites()")
 		}
 	})
 	return
